@@ -28,24 +28,6 @@ Ltac simp := cbv beta iota zeta delta [negb andb orb astate_eqb state data conti
                        min_length max_length max_sil init_min init_max_sil strict drop
                        set_state set_data set_contig set_init_count set_sil set_start set_cur].
 
-Lemma tie2_eod (c : config) (s : st A) (t : bool) : eod2 c s t = eod c s t.
-Proof.
-  destruct s as [sa d cg ic sl sta cu]; destruct c as [mn mx ms im ims str dr].
-  unfold eod2, eod, nonempty. destruct t, dr, str, cg; simp; walk.
-Qed.
-
-Lemma tie2_process (c : config) (s : st A) (f : A) (v : bool) : process2 c s f v = process c s f v.
-Proof.
-  destruct s as [sa d cg ic sl sta cu]; destruct c as [mn mx ms im ims str dr].
-  unfold process2, process, eod, nonempty. destruct sa, v, dr, str, cg; simp; walk.
-Qed.
-
-Lemma tie2_post_process (c : config) (s : st A) : post_process2 c s = post_process c s.
-Proof.
-  destruct s as [sa d cg ic sl sta cu]; destruct c as [mn mx ms im ims str dr].
-  unfold post_process2, post_process, eod, nonempty. destruct sa, dr, str, cg; simp; walk.
-Qed.
-
 Lemma tie2_iter_step (c : config) (s : st A) fr : iter_step2 c s fr = iter_step c s fr.
 Proof.
   destruct s as [sa d cg ic sl sta cu]; destruct c as [mn mx ms im ims str dr].
